@@ -58,7 +58,8 @@ DEPTH = {'F': 0, 'N1': 1, 'N2': 2}
 OTS = (None, 0, T)
 MFS = (None, 0, 1, 2)
 BSS = (0, 1, 2, 5)
-IGNS = ((), ('ERROR',), ('SUCCESS', 'CANCELLED'))
+IGNS = ((), ('ERROR',), ('SUCCESS', 'CANCELLED'),
+        ('SUCCESS', 'ERROR', 'CANCELLED'))
 ALL = (OTS, MFS, BSS, IGNS)
 
 AUTH_ON = [('auth_enable', True, 'pecan')]
